@@ -31,6 +31,10 @@ pub struct Case {
     /// (before read call k, switch bit, new value)
     pub flips: Vec<(u8, u8, bool)>,
     pub buffered: bool,
+    /// read call indices after which, if that call returned a Start event, the element is skipped
+    /// with read_to_end / read_to_end_into
+    #[serde(default)]
+    pub skips: Vec<u8>,
 }
 
 const FOUR: [u8; 4] = [ALLOW_UNMATCHED, CHECK_END_NAMES, EXPAND_EMPTY, TRIM_NAMES];
@@ -40,11 +44,15 @@ pub fn info() -> PropInfo {
         id: "C04",
         run,
         replay,
-        rule: "cases = (tag sequence over names {a, ab, b, a:b, e-acute} with start/end(with trailing blanks)/empty/text items, not necessarily balanced; initial setting of check_end_names, allow_unmatched_ends, trim_markup_names_in_closing_tags, expand_empty_elements; flips of those switches before chosen read calls; slice or buffered source). Oracle: a stack model fed call by call with the configuration in force at that call. Exhaustive for <=5 items over two names x all 16 static settings and for <=4 items x every single flip; proptest histories of up to 40 items with up to 6 flips. Non-trivial = a flip happens after at least one Start and at least one End is judged with name checking on after that flip.",
+        rule: "cases = (tag sequence over names {a, ab, b, a:b, e-acute} with start/end(with trailing blanks)/empty/text items, not necessarily balanced; initial setting of check_end_names, allow_unmatched_ends, trim_markup_names_in_closing_tags, expand_empty_elements; flips of those switches before chosen read calls; slice or buffered source; after some start events the element is skipped with read_to_end / read_to_end_into, whose outcome (span or error) and final position must equal reading event by event on a clone of the reader). Oracle: a stack model fed call by call with the configuration in force at that call. Exhaustive for <=5 items over two names x all 16 static settings and for <=4 items x every single flip; proptest histories of up to 40 items with up to 6 flips. Non-trivial = a flip happens after at least one Start and at least one End is judged with name checking on after that flip.",
         assumptions: &["whether an end tag reported as mismatched closes the innermost element is not fixed by the property: both continuations are accepted (set of possible stacks)", "the synthesized End of an expanded empty element is emitted whatever the switches are at that moment"],
         level: "exploration",
         variants: &["full"],
     }
+}
+
+fn c04_skip(skips: &[u8], k: usize) -> bool {
+    skips.iter().any(|s| *s as usize == k)
 }
 
 pub fn render(items: &[Item]) -> Vec<u8> {
@@ -88,9 +96,10 @@ pub fn check(c: &Case) -> Verdict {
     let mut flip_inside_expanded = false;
     let mut max_depth = 0usize;
     let mut depth = 0usize;
+    let mut skipped = 0u32;
 
     macro_rules! body {
-        ($r:ident, $read:expr) => {{
+        ($r:ident, $read:expr, $emu:ident, $emu_read:expr, $skip_name:ident, $skip:expr) => {{
             apply_cfg($r.config_mut(), bits);
             for k in 0..call_bound(data.len()) + 3 {
                 for (at, bit, val) in &c.flips {
@@ -140,19 +149,108 @@ pub fn check(c: &Case) -> Verdict {
                 if matches!(recs.last().unwrap().ev, Ev::Eof) {
                     break;
                 }
+                // skip the element just opened: read_to_end* must behave like reading event by event
+                // until the matching end tag (any error on the way is returned), under the
+                // configuration in force now
+                let start_name: Option<Vec<u8>> = match &recs.last().unwrap().ev {
+                    Ev::Start(content, n) if c04_skip(&c.skips, k) => Some(content.0[..*n].to_vec()),
+                    _ => None,
+                };
+                if let Some(name) = start_name {
+                    skipped += 1;
+                    let pos0 = $r.buffer_position();
+                    // emulation on a clone of the reader
+                    let mut $emu = $r.clone();
+                    let mut emu_recs: Vec<Rec> = vec![];
+                    let mut d = 0usize;
+                    let mut before = pos0;
+                    let emu_out: Result<(u64, u64), Ev> = loop {
+                        let ev = ev_of(&$emu_read);
+                        let rec = Rec { ev, pos: $emu.buffer_position(), err_pos: $emu.error_position() };
+                        emu_recs.push(rec.clone());
+                        match &rec.ev {
+                            Ev::Start(c, n) if &c.0[..*n] == &name[..] => d += 1,
+                            Ev::End(c) if &c.0[..] == &name[..] => {
+                                if d == 0 {
+                                    break Ok((pos0, before));
+                                }
+                                d -= 1;
+                            }
+                            Ev::Eof => break Err(Ev::MissingEndTag(String::from_utf8_lossy(&name).into_owned())),
+                            e if e.is_err() => break Err(e.clone()),
+                            _ => {}
+                        }
+                        before = rec.pos;
+                        if emu_recs.len() > call_bound(data.len()) {
+                            break Err(Ev::Other("emulation does not end".into()));
+                        }
+                    };
+                    let $skip_name = quick_xml::name::QName(&name);
+                    let real: Result<(u64, u64), Ev> = match $skip {
+                        Ok(span) => Ok((span.start, span.end)),
+                        Err(e) => Err(ev_of(&Err::<quick_xml::events::Event, _>(e))),
+                    };
+                    let same = match (&emu_out, &real) {
+                        (Ok(a), Ok(b)) => a == b,
+                        (Err(a), Err(b)) => a == b,
+                        _ => false,
+                    };
+                    if !same || $emu.buffer_position() != $r.buffer_position() {
+                        v.fail = Some(format!("after call {}: read_to_end(<{}>) gives {:?} at position {}, reading event by event gives {:?} at position {} ({}) | doc={} | switches now={}", k, String::from_utf8_lossy(&name), real, $r.buffer_position(), emu_out, $emu.buffer_position(), show_recs(&emu_recs), B::show(&data), cfg_show(bits)));
+                        break;
+                    }
+                    // keep the model in step (and judge the events the emulation saw)
+                    let mut bad = None;
+                    for rec in &emu_recs {
+                        match &rec.ev {
+                            Ev::Start(..) => depth += 1,
+                            Ev::End(_) | Ev::Mismatch(..) => {
+                                depth = depth.saturating_sub(1);
+                                if flipped_after_start && bits & CHECK_END_NAMES != 0 {
+                                    judged_after_flip = true;
+                                }
+                            }
+                            _ => {}
+                        }
+                        if let Step::Bad(m) = w.step(bits, rec) {
+                            bad = Some(m);
+                            break;
+                        }
+                    }
+                    recs.extend(emu_recs);
+                    if let Some(m) = bad {
+                        v.fail = Some(format!("inside the skipped element after call {}: {} | doc={} | switches now={} | records: {}", k, m, B::show(&data), cfg_show(bits), show_recs(&recs)));
+                        break;
+                    }
+                    if matches!(recs.last().unwrap().ev, Ev::Eof) {
+                        break;
+                    }
+                }
             }
         }};
     }
     if c.buffered {
         let mut r = Reader::from_reader(ChunkedBufRead::new(&data, crate::sources::cuts_fixed(3, data.len())));
         let mut buf = Vec::new();
-        body!(r, {
-            buf.clear();
-            r.read_event_into(&mut buf)
-        });
+        let mut ebuf = Vec::new();
+        let mut sbuf = Vec::new();
+        body!(
+            r,
+            {
+                buf.clear();
+                r.read_event_into(&mut buf)
+            },
+            emu,
+            {
+                ebuf.clear();
+                emu.read_event_into(&mut ebuf)
+            },
+            qn,
+            r.read_to_end_into(qn, &mut sbuf)
+        );
     } else {
         let mut r = Reader::from_reader(&data[..]);
-        body!(r, r.read_event());
+        body!(r, r.read_event(), emu, emu.read_event(), qn, r.read_to_end(qn));
     }
     if v.fail.is_some() {
         v.nontrivial = true;
@@ -176,6 +274,9 @@ pub fn check(c: &Case) -> Verdict {
     }
     if c.flips.is_empty() {
         v.classes.push("static-settings");
+    }
+    if skipped > 0 {
+        v.classes.push("read_to_end-vs-event-by-event");
     }
     if w.overflow {
         v.classes.push("stack-set-overflow-lenient");
@@ -270,7 +371,7 @@ fn run(ctx: &Ctx) {
     ctx.run_regress::<Case, _>(check);
     let n = ctx.tier.pick(5, 6);
     let count = crate::gen::exh_count(8, n);
-    ctx.run_indexed("exh-items-x-16-static-settings", count * 16, |i| Some(Case { items: exh_items(i / 16), cfg: static_bits(i % 16), flips: vec![], buffered: (i / 16) % 2 == 1 }), check);
+    ctx.run_indexed("exh-items-x-16-static-settings", count * 16, |i| Some(Case { items: exh_items(i / 16), cfg: static_bits(i % 16), flips: vec![], buffered: (i / 16) % 2 == 1, skips: if (i / 16) % 3 == 0 { vec![((i / 48) % 3) as u8] } else { vec![] } }), check);
     // every single flip: (call index 0..=5) x (4 switches) x (2 values) for <= 4 items
     let m = ctx.tier.pick(4, 5);
     let mcount = crate::gen::exh_count(8, m);
@@ -284,7 +385,7 @@ fn run(ctx: &Ctx) {
             if at as usize > items.len() + 1 {
                 return None;
             }
-            Some(Case { items, cfg: static_bits((i / 56) % 16), flips: vec![(at, bit, val)], buffered: false })
+            Some(Case { items, cfg: static_bits((i / 56) % 16), flips: vec![(at, bit, val)], buffered: false, skips: if i % 5 == 0 { vec![(i % 4) as u8] } else { vec![] } })
         },
         check,
     );
@@ -293,8 +394,9 @@ fn run(ctx: &Ctx) {
         0u8..128,
         prop::collection::vec((0u8..40, 0u8..4, any::<bool>()), 0..6),
         any::<bool>(),
+        prop::collection::vec(0u8..24, 0..3),
     )
-        .prop_map(|(items, cfg, flips, buffered)| Case { items, cfg, flips, buffered });
+        .prop_map(|(items, cfg, flips, buffered, skips)| Case { items, cfg, flips, buffered, skips });
     ctx.run_proptest("histories-with-flips", ctx.tier.pick(1_500_000, 10_000_000), strat, check);
 }
 
